@@ -24,7 +24,8 @@ Abs(p) == <<ROOT>> \o p
 Ups(loc) == [i \in 1..Len(loc) |-> ".."]
 
 BaseFs == FnOf(BasePairs)
-Scen(f, pairs, jp, main) == [fam |-> f, fs |-> FnOf(pairs) @@ BaseFs, jp |-> jp, main |-> main]
+ScenO(f, pairs, jp, main, os) == [fam |-> f, fs |-> FnOf(pairs) @@ BaseFs, jp |-> jp, main |-> main, opts |-> os]
+Scen(f, pairs, jp, main) == ScenO(f, pairs, jp, main, <<>>)
 Leaf(tag) == Code(tag, <<>>, <<>>, FALSE)
 AFiles(pres) == {<<loc \o <<A>>, Leaf(TagOf(loc))>> : loc \in pres}
 
@@ -165,6 +166,103 @@ SelfPart(z) ==
       lk \in LinkKinds, st \in BOOLEAN,
       sp \in {<<"main.jsonnet">>, <<"..", "main", "main.jsonnet">>, Abs(MainPath)}}
 
+(* ---- codefile: a file handed over with --ext-code-file / --tla-code-file - *)
+(* The code file main/sub/cf.libsonnet holds one statement whose sibling    *)
+(* spelling also exists next to the main file and in the -J directories, so *)
+(* a wrong base directory picks a file with another tag.  The main program  *)
+(* demands the variable, imports the same file by another spelling, both,   *)
+(* or neither.                                                              *)
+CF == LSub \o <<"cf.libsonnet">>
+CF2 == L1 \o <<"cf2.libsonnet">>
+CfLinks == {<<LMain \o <<"cfl.libsonnet">>, Link(<<"sub", "cf.libsonnet">>)>>,    \* a link to the file, in main/
+            <<<<"Lc">>, Link(LSub)>>}                                            \* a link to its directory
+VarName(route, i) == IF route = "ext" THEN <<"v1", "v2">>[i] ELSE <<"x1", "x2">>[i]
+Dem(o) == Stmt(o.route, <<o.var>>, 0)
+RouteQ == <<"ext", "tla">>
+CfCmdQ == <<CF, <<"main", "..">> \o CF, Abs(CF), <<"Lc", "cf.libsonnet">>, LMain \o <<"cfl.libsonnet">>, <<".">> \o CF>>
+CfMainSpQ == <<<<"sub", "cf.libsonnet">>, <<"..", "Lc", "cf.libsonnet">>, <<"cfl.libsonnet">>, Abs(CF)>>
+CfInnerQ == <<Stmt("import", <<A>>, 0), Stmt("import", <<".", A>>, 0), Stmt("str", <<A>>, 0),
+              Stmt("bin", <<A>>, 0), Stmt("import", <<"..", A>>, 0)>>
+CfPresQ == <<Locs, {LMain, L1, L2}, {LMain}>>
+CfJQ == <<<<>>, <<L1>>, <<L1, L2>>>>
+CfShape(k, d) ==      \* the main program's statements
+  IF k = 1 THEN <<d>> ELSE IF k = 2 THEN <<>> ELSE IF k = 3 THEN <<d, d>>
+  ELSE IF k <= 7 THEN <<Stmt("import", CfMainSpQ[k - 3], 0), d>>
+  ELSE IF k <= 11 THEN <<d, Stmt("import", CfMainSpQ[k - 7], 0)>>
+  ELSE <<Stmt("import", CfMainSpQ[k - 11], 0)>>
+CodefileScenA(route, c, inner, pres, jp, k) ==
+  LET o == Opt(route, VarName(route, 1), c) IN
+  ScenO("codefile", AFiles(pres) \cup CfLinks
+                    \cup {<<CF, Code(10, <<inner>>, <<>>, FALSE)>>,
+                          <<MainPath, Code(0, CfShape(k, Dem(o)), <<>>, FALSE)>>}, jp, MainPath, <<o>>)
+CodefilePartA(z) ==
+  {CodefileScenA(RouteQ[u[1]], CfCmdQ[u[2]], CfInnerQ[u[3]], CfPresQ[u[4]], CfJQ[u[5]], u[6]) :
+      u \in {v \in (1..2) \X (1..6) \X (1..5) \X (1..3) \X (1..3) \X (1..15) :
+                Sel(v[1] + v[2] + v[3] + v[4] + v[5] + v[6])}}
+
+(* a code file that is missing, a directory, a dangling link, below a plain  *)
+(* file, a link loop; alone, or before / after an option that is fine        *)
+CfBadQ == <<LSub \o <<"nofile.libsonnet">>, LSub, LMain \o <<"dang.libsonnet">>, MainPath \o <<"x">>,
+            Abs(LSub \o <<"nofile.libsonnet">>), LMain \o <<"loop.libsonnet">>, <<"Lc">>>>
+CfFaultFs == {<<LMain \o <<"dang.libsonnet">>, Link(<<"nowhere">>)>>,
+              <<LMain \o <<"loop.libsonnet">>, Link(<<"loop.libsonnet">>)>>}
+CodefileScenB(bad, br, g, gr, m) ==
+  LET ob == Opt(br, VarName(br, IF g = 1 THEN 2 ELSE 1), bad)
+      og == Opt(gr, VarName(gr, IF g = 1 THEN 1 ELSE 2), CF)
+      os == IF g = 0 THEN <<ob>> ELSE IF g = 1 THEN <<og, ob>> ELSE <<ob, og>>
+      stmts == IF m = 1 THEN <<>> ELSE IF m = 2 THEN <<Dem(ob)>>
+               ELSE <<Stmt("import", <<"sub", "cf.libsonnet">>, 0)>> \o (IF g = 0 THEN <<>> ELSE <<Dem(og)>>)
+  IN ScenO("codefile", AFiles(Locs) \cup CfLinks \cup CfFaultFs
+                       \cup {<<CF, Code(10, <<Stmt("import", <<A>>, 0)>>, <<>>, FALSE)>>,
+                             <<MainPath, Code(0, stmts, <<>>, FALSE)>>}, <<L1>>, MainPath, os)
+CodefilePartB(z) ==
+  {CodefileScenB(bad, br, g, gr, m) :
+      bad \in ToSet(CfBadQ), br \in ToSet(RouteQ), g \in 0..2, gr \in ToSet(RouteQ), m \in 1..3}
+
+(* two options: the same file twice (by two spellings, by the same or by    *)
+(* different routes), or a second code file that reaches the first one      *)
+Cf2Content(c) == IF c = 1 THEN <<Stmt("import", <<"..", "main", "sub", "cf.libsonnet">>, 0)>>
+                 ELSE IF c = 2 THEN <<Stmt("ext", <<"v1">>, 0)>>
+                 ELSE <<Stmt("import", <<A>>, 0)>>
+CodefileScenC(sp1, r1, r2, t, m) ==
+  LET o1 == Opt(r1, VarName(r1, 1), sp1)
+      sp2 == IF t = 1 THEN <<"main", "..">> \o CF ELSE IF t = 2 THEN LMain \o <<"cfl.libsonnet">>
+             ELSE IF t = 5 THEN Abs(CF2) ELSE CF2
+      o2 == Opt(r2, VarName(r2, 2), sp2)
+      d1 == Dem(o1)  d2 == Dem(o2)
+      stmts == IF m = 1 \/ m = 5 THEN <<d1, d2>> ELSE IF m = 2 THEN <<d2, d1>> ELSE IF m = 3 THEN <<d2>>
+               ELSE IF m = 4 THEN <<>> ELSE <<d2, Stmt("import", <<"sub", "cf.libsonnet">>, 0)>>
+  IN ScenO("codefile", AFiles(Locs) \cup CfLinks
+                       \cup {<<CF, Code(10, <<Stmt("import", <<A>>, 0)>>, <<>>, FALSE)>>,
+                             <<CF2, Code(11, Cf2Content(IF t > 2 THEN t - 2 ELSE 3), <<>>, FALSE)>>,
+                             <<MainPath, Code(0, stmts, <<>>, m = 5)>>}, <<L2>>, MainPath, <<o1, o2>>)
+CodefilePartC(z) ==
+  {CodefileScenC(u[1], u[2], u[3], u[4], u[5]) :
+      u \in {v \in {CF, Abs(CF)} \X ToSet(RouteQ) \X ToSet(RouteQ) \X (1..5) \X (1..6) :
+                v[4] = 4 => v[2] = "ext"}}
+
+(* the code file is the main file itself; the code file reads its own        *)
+(* external variable                                                         *)
+CodefileSelfMain(sp, w) ==
+  LET o == Opt("ext", "v1", sp) IN
+  ScenO("codefile", CfLinks \cup {<<MainPath,
+           IF w = 1 THEN Code(0, <<Dem(o)>>, <<>>, FALSE)
+           ELSE IF w = 2 THEN Code(0, <<Dem(o)>>, <<>>, TRUE)
+           ELSE IF w = 3 THEN Code(0, <<Stmt("ext", <<"v1">>, 1)>>, <<Stmt("str", <<"main.jsonnet">>, 0)>>, FALSE)
+           ELSE Code(0, <<>>, <<>>, FALSE)>>}, <<>>, MainPath, <<o>>)
+CodefileSelfVar(sp, w, ch) ==
+  LET o == Opt("ext", "v1", sp) IN
+  ScenO("codefile", AFiles(Locs) \cup CfLinks
+           \cup {<<CF, IF w = 1 THEN Code(10, <<Dem(o)>>, <<>>, FALSE)
+                       ELSE IF w = 2 THEN Code(10, <<Dem(o)>>, <<>>, TRUE)
+                       ELSE Code(10, <<Stmt("import", <<A>>, 0)>>, <<Dem(o)>>, FALSE)>>,
+                 <<MainPath, Code(0, <<Stmt("ext", <<"v1">>, ch)>>, <<>>, FALSE)>>}, <<>>, MainPath, <<o>>)
+CodefilePartD(z) ==
+  {CodefileSelfMain(sp, w) :
+      sp \in {MainPath, <<"main", "..">> \o MainPath, Abs(MainPath), <<"Lc", "..", "main.jsonnet">>}, w \in 1..4}
+  \cup {CodefileSelfVar(u[1], u[2], u[3]) :
+            u \in {v \in {CF, Abs(CF)} \X (1..3) \X (0..2) : v[3] > 0 => v[2] = 3}}
+
 (* ---- data: binary / text content reached through the search ------------- *)
 DataBytes == {<<>>, <<104, 105, 10>>, <<195, 169, 226, 130, 172, 240, 159, 152, 128>>, <<255>>,
               <<97, 226, 130>>, <<0, 65, 0>>, <<240, 159, 152, 128, 128, 97>>, <<237, 160, 128, 237, 176, 128>>,
@@ -184,7 +282,7 @@ ContentPart(z) ==
                     <<MainPath, Code(0, <<Stmt("str", <<"d.bin">>, 0), Stmt("bin", <<"d.bin">>, 0)>>, <<>>, FALSE)>>},
         <<>>, MainPath) : b \in ByteSeqs(z)}
 
-NSub(m) == CASE m = "laws" -> 2 [] m = "pairs" -> 4 [] m = "cycles" -> 2 [] OTHER -> 1
+NSub(m) == CASE m = "laws" -> 2 [] m = "pairs" -> 4 [] m = "cycles" -> 2 [] m = "codefile" -> 4 [] OTHER -> 1
 Part(m, i) ==
   CASE m = "search" -> SearchPart(m)
     [] m = "special" -> SpecialPart(m)
@@ -192,6 +290,8 @@ Part(m, i) ==
     [] m = "laws" -> IF i = 1 THEN LawsPartA(m) ELSE LawsPartB(m)
     [] m = "pairs" -> IF i = 1 THEN PairsPartA(m) ELSE IF i = 2 THEN PairsPartB(m) ELSE IF i = 3 THEN PairsPartC(m) ELSE PairsPartD(m)
     [] m = "cycles" -> IF i = 1 THEN {s \in CyclesPart(m) : CyclesOk(s)} ELSE SelfPart(m)
+    [] m = "codefile" -> IF i = 1 THEN CodefilePartA(m) ELSE IF i = 2 THEN CodefilePartB(m)
+                         ELSE IF i = 3 THEN CodefilePartC(m) ELSE CodefilePartD(m)
     [] m = "data" -> DataPart(m)
     [] m = "content" -> ContentPart(m)
 
@@ -203,12 +303,13 @@ Spec == Init /\ [][Next]_vars
 AsList(f) == SetToSeq({[p |-> p, v |-> f[p]] : p \in DOMAIN f})
 HistList == SetToSeq(hist)
 CaseRec ==
-  [fam |-> fam, fs |-> AsList(fs), jp |-> jpaths, main |-> mainPath,
+  [fam |-> fam, fs |-> AsList(fs), jp |-> jpaths, main |-> mainPath, opts |-> opts,
+   binds |-> SetToSeq({[i |-> i, n |-> binds[i]] : i \in DOMAIN binds}),
    status |-> status, err |-> err, loads |-> AsList(loads), thisFile |-> AsList(thisFile),
    res |-> AsList(res), hits |-> hits,
    skipped |-> Cardinality({h \in hist : h.idx > 1}), nres |-> Cardinality(hist)]
 
-Emit == (status # "run") => PrintT(<<"CASE", ToJson(CaseRec)>>)
+Emit == (status \notin {"bind", "run"}) => PrintT(<<"CASE", ToJson(CaseRec)>>)
 
 (* Laws of the reference operators.  The algebra of Resolve is checked on   *)
 (* the trees of the "laws" family for every importer directory, -J list and *)
